@@ -26,8 +26,24 @@ def run(ctx, report):
     R.rule_funnel(b, report, "R05-funnel-bic", "BIC", [("init", "validate", "is_valid"), ("init_swift", "validate_swift")])
     R.rule_class_iban(m, report, "R05-class-iban")
     _class_bic(b, report)
+    # national validation: every algorithm registered for any country (and every German method) on structure-conforming BBANs
+    from ..algo_eval import struct_positions
+    from .c06 import _bban_level
+    r_nat = report.rule("R05-national", floor=20, what="BBAN-level national validation raises nothing but library exceptions for every registered country")
+    prog = ctx.program
+    bban_cls = prog.get("schwifty.bban.BBAN")
+    seen = set()
+    for reg_ in sorted(ctx.facts.registrations(), key=lambda x: x.key):
+        cc = reg_.prefix
+        if cc in seen or cc not in ctx.registry.countries:
+            continue
+        st = struct_positions(ctx.registry, cc)
+        if st is None:
+            continue
+        seen.add(cc)
+        _bban_level(ctx, r_nat, cc, st, bban_cls, None)
     report.not_decided += ["accuracy of the message texts; which of several simultaneous defects is reported (any present defect satisfies the statement)",
-                           "exceptions inside the national algorithms under validate_bban=True are decided per country by C06 (R06-fields / R06-true)"]
+                           "the national check is an opaque verdict inside the symbolic validator model; its own exceptions are decided by R05-national on abstract structure-conforming BBANs"]
 
 
 def _class_bic(b, report):
